@@ -996,4 +996,103 @@ theorem runs_encodeIntegerValuesEb (ch : EbChoices) (o : EncOpts) (attId kind nc
     (runs_parent_of_enc kind _ hk' pointIds parentE parentD hpar pos hpos) hnc hn hlen hd h32 hr hk3 hF hcorners
     (fun h => hcrease (effectiveScheme_cm _ _ h)) hbs⟩
 
+
+/-! ### encoder and decoder on their own mesh data -/
+
+/-- two position sources that deliver the same position for every entry -/
+def PosAgree (a b : PosSource) : Prop := ∀ i, a.get i = b.get i
+
+theorem texPredictEnc_congr_ps (md : MeshData) (a b : PosSource) (h : PosAgree a b) :
+    texPredictEnc md a = texPredictEnc md b := by
+  funext corner data p
+  unfold texPredictEnc
+  simp only [h _]
+
+theorem texCoordsEncode_congr_ps (md : MeshData) (a b : PosSource) (h : PosAgree a b) (wt : WrapT) (nc : Nat)
+    (data : Array Int) : texCoordsEncode md a wt nc data = texCoordsEncode md b wt nc data := by
+  unfold texCoordsEncode
+  rw [texPredictEnc_congr_ps md a b h]
+
+theorem normalPredict_congr_ps (md : MeshData) (a b : PosSource) (h : PosAgree a b) (corner : Nat) (one : Bool) :
+    normalPredict md a corner one = normalPredict md b corner one := by
+  unfold normalPredict
+  simp only [h _]
+
+theorem geometricNormalEncode_congr_ps (md : MeshData) (a b : PosSource) (h : PosAgree a b) (ot : OctaT)
+    (data : Array Int) : geometricNormalEncode md a ot data = geometricNormalEncode md b ot data := by
+  unfold geometricNormalEncode
+  simp only [normalPredict_congr_ps md a b h]
+
+theorem encodeSchemeBlock_congr_ps (ch : EbChoices) (o : EncOpts) (attId kind nc : Nat) (s : PScheme) (md : MeshData)
+    (a b : PosSource) (h : PosAgree a b) (portable : Array Int) :
+    encodeSchemeBlock ch o attId kind nc s md a portable = encodeSchemeBlock ch o attId kind nc s md b portable := by
+  unfold encodeSchemeBlock
+  simp only [texCoordsEncode_congr_ps md a b h, geometricNormalEncode_congr_ps md a b h]
+
+/-- what the decoder holds as parent attribute when it decodes a block whose scheme needs one: three components,
+    integer view present, and — entry by entry — the positions the encoder saw (`PosAgree`) -/
+def DecParentOK (s : PScheme) (parentD : Option Parent) (pointIdsD : Array Nat) (posE : PosSource) : Prop :=
+  s.needsParent = true → ∃ q, parentD = some q ∧ q.numComponents = 3 ∧ q.intsOk = true ∧
+    PosAgree posE { pointIds := pointIdsD, map := q.map, values := q.ints }
+
+theorem encParentSource_noParent (s : PScheme) (h : s.needsParent = false) (pointIds : Array Nat)
+    (parent : Option ParentAtt) (pos : PosSource) (hp : encParentSource s pointIds parent = .ok pos) : pos = noPos := by
+  unfold encParentSource at hp
+  simp only [h, Bool.false_eq_true, if_false, pure, Except.pure, Except.ok.injEq] at hp
+  exact hp.symm
+
+/-- **the value block, encoder and decoder each on their own mesh data**: the encoder runs on `mdE` / `pointIdsE` /
+    `parentE`, the decoder on `mdD` / `pointIdsD` / `parentD`.  Named hypotheses: `hinv` (*block invariance*: the
+    block the encoder writes is the one it would write on the decoder's mesh data — what prediction equivariance
+    under `MDIso` delivers), `hparD` (`DecParentOK`). -/
+theorem runs_valueBlock (ch : EbChoices) (o : EncOpts) (attId kind nc numValues n attComponents : Nat)
+    (scheme : PScheme) (mdE mdD : MeshData) (pointIdsE pointIdsD : Array Nat) (parentE : Option ParentAtt)
+    (parentD : Option Parent) (portable : Array Int) (sch' : PScheme) (bs : Bytes)
+    (hnv : numValues ≠ 0) (hk : SchemeKindOK kind scheme)
+    (hinv : ∀ posE, encParentSource (effectiveScheme scheme portable) pointIdsE parentE = .ok posE →
+      encodeSchemeBlock ch o attId kind nc (effectiveScheme scheme portable) mdE posE portable =
+      encodeSchemeBlock ch o attId kind nc (effectiveScheme scheme portable) mdD posE portable)
+    (hparD : ∀ posE, encParentSource (effectiveScheme scheme portable) pointIdsE parentE = .ok posE →
+      DecParentOK (effectiveScheme scheme portable) parentD pointIdsD posE)
+    (hnc : 0 < nc) (hn : 0 < n) (hlen : portable.size = n * nc) (hd : mdD.d2c.size = n) (h32 : n * nc < 2 ^ 32)
+    (hr : ∀ x ∈ portable.toList, -2 ^ 31 ≤ x ∧ x < 2 ^ 31)
+    (hk3 : kind = 3 → NormalsOK o attId nc n portable)
+    (hF : 3 * mdD.t.numFaces + 3 < 2 ^ 31) (hcorners : n ≤ 3 * mdD.t.numFaces)
+    (hcrease : scheme = .constrainedMulti → CreaseCountOK ch attId nc mdD portable)
+    (henc : encodeIntegerValuesEb ch o attId kind nc numValues scheme mdE pointIdsE parentE portable = .ok (sch', bs)) :
+    sch' = effectiveScheme scheme portable ∧
+    Runs (decodeIntegerValuesEb kind n nc attComponents mdD pointIdsD parentD) 514 bs
+      (portable, TransformData.none) 514 := by
+  unfold encodeIntegerValuesEb at henc
+  have hnv' : (numValues == 0) = false := by simpa using hnv
+  simp only [hnv', Bool.false_eq_true, if_false] at henc
+  rw [bind_ok_iff] at henc
+  obtain ⟨posE, hpos, henc⟩ := henc
+  rw [bind_ok_iff] at henc
+  obtain ⟨bs', hbs, hret⟩ := henc
+  simp only [pure, Except.pure, Except.ok.injEq, Prod.mk.injEq] at hret
+  obtain ⟨rfl, rfl⟩ := hret
+  have hk' := schemeKindOK_effective kind scheme portable hk
+  refine ⟨rfl, ?_⟩
+  rw [hinv posE hpos] at hbs
+  by_cases hp : (effectiveScheme scheme portable).needsParent = true
+  · obtain ⟨q, hq, hq3, hqok, hagree⟩ := hparD posE hpos hp
+    subst hq
+    rw [encodeSchemeBlock_congr_ps ch o attId kind nc _ mdD _ _ hagree] at hbs
+    refine runs_schemeBlock ch o attId kind nc n attComponents _ mdD pointIdsD (some q) _ portable bs' hk' ?_
+      hnc hn hlen hd h32 hr hk3 hF hcorners (fun h => hcrease (effectiveScheme_cm _ _ h)) hbs
+    generalize effectiveScheme scheme portable = s at *
+    exact runs_parentSourcesEb_some (decScheme kind s) (by
+        cases s <;> simp only [PScheme.needsParent] at hp <;> first | rfl | exact absurd hp (by decide) | exact absurd hk' (by simp [SchemeKindOK]))
+      (by cases s <;> simp only [PScheme.needsParent] at hp <;> first | (intro hh; cases hh) | exact absurd hp (by decide))
+      pointIdsD q hq3 hqok 514
+  · have hp' : (effectiveScheme scheme portable).needsParent = false := by simpa using hp
+    have := encParentSource_noParent _ hp' _ _ _ hpos
+    subst this
+    refine runs_schemeBlock ch o attId kind nc n attComponents _ mdD pointIdsD parentD noPos portable bs' hk' ?_
+      hnc hn hlen hd h32 hr hk3 hF hcorners (fun h => hcrease (effectiveScheme_cm _ _ h)) hbs
+    generalize effectiveScheme scheme portable = s at *
+    refine runs_parentSourcesEb_none _ ?_ pointIdsD parentD 514
+    cases s <;> simp only [PScheme.needsParent] at hp' <;> first | rfl | (simp only [decScheme]; split <;> rfl) | exact absurd hp' (by decide)
+
 end Draco.EbEnc
